@@ -37,14 +37,16 @@ def handle (kv : KV) : String :=
     let (m, bad) := modelAsync s cfg reader sched
     let kind : SkipKind := if reader == "nstrict" then .strict else .seekable
     let msync := Driver.C13.mp4Text (MediaSan.Mp4.sanitize s kind cfg)
-    if msync != sync then s!"DIFF {id} model-sync={msync} impl-sync={sync}"
-    else if m != asy then s!"DIFF {id} model-async={m} impl-async={asy} restore-suspended={bad}"
-    else if asy == "panic" || asy == "hang" then s!"SPEC {id} which=async-{asy} sig=C12:async-{asy}:{reader} sched={schedS}"
+    if asy == "panic" || asy == "hang" then s!"SPEC {id} which=async-{asy} sig=C12:async-{asy}:{reader} sched={schedS}"
     else if asy != sync then
-      -- Spec_C12: the async result equals the sync result under every schedule.  The one known way to break it is the
-      -- non-restartable poll_stream_len of SeekSkipAdapter over AsyncSeek (recognised by the model's ghost flag).
-      let sig := if bad then "C12:seek-adapter-stream-len-restoring-seek-suspended" else s!"C12:async-differs-from-sync:{reader}"
-      s!"SPEC {id} which=async-result-depends-on-schedule sig={sig} sync={sync} async={asy} sched={schedS}"
+      -- Spec_C12 (judged on the implementation, before any comparison with the model): the async result equals the sync
+      -- result under every schedule.  The one known way to break it is the non-restartable poll_stream_len of
+      -- SeekSkipAdapter over AsyncSeek, recognised when the model reproduces both results AND its ghost flag says a
+      -- restoring seek was suspended.
+      let sig := if bad && m == asy && msync == sync then "C12:seek-adapter-stream-len-restoring-seek-suspended" else s!"C12:async-differs-from-sync:{reader}"
+      s!"SPEC {id} which=async-result-depends-on-schedule sig={sig} sync={sync} async={asy} model-async={m} sched={schedS}"
+    else if msync != sync then s!"DIFF {id} model-sync={msync} impl-sync={sync}"
+    else if m != asy then s!"DIFF {id} model-async={m} impl-async={asy} restore-suspended={bad}"
     else
       let np := (sched.filter (fun b => b)).length
       let pend := kv.getD "pendings" "0"
